@@ -266,11 +266,17 @@ async fn run_task(engine: Arc<Engine<MemCfg>>, sh: Arc<Shared>, sc: Arc<Sched>, 
                 let te = engine.clone().tracked().await;
                 let t_ret = sc.now();
                 let mut ro = RoundObs { task: tid, t_call, t_ret, t_rel: 0, vals: vec![] };
+                let mut seen: Vec<u32> = vec![];
                 for k in ks {
                     sc.hpause("h:r:q").await;
                     let lo = sc.now();
                     let v = query_key(&sh, &te, k).await;
-                    sc.record(tid, "h:r:query", Some("rQuery"), k as i64 * 2 + if kinds[k as usize] == Kind::Input { 1 } else { 0 }, v, Some(lo));
+                    // a repeated key is answered by the TrackedEngine's local cache (a memo of values it already
+                    // returned): not an engine event, but still judged by the oracle
+                    if !seen.contains(&k) {
+                        sc.record(tid, "h:r:query", Some("rQuery"), k as i64 * 2 + if kinds[k as usize] == Kind::Input { 1 } else { 0 }, v, Some(lo));
+                        seen.push(k);
+                    }
                     ro.vals.push((k, v));
                 }
                 sc.hpause("h:r:prerel").await;
@@ -433,16 +439,22 @@ fn judge(case: &PCase, out: &RunOut) -> Vec<(String, String)> {
     fails
 }
 
-/// F5's trigger, read off the hook trace: a reader sampled a session's new timestamp before that session's
-/// writer held the exclusive lock
+/// F5's trigger, read off the hook trace: a reader sampled the timestamp after a session's bump (so it got that
+/// session's timestamp, or a later one) before that session's writer held the exclusive lock
 fn f5_window(trace: &[Evt]) -> bool {
-    for (i, b) in trace.iter().enumerate() {
-        if b.name != "wBump" { continue; }
-        let acq = trace.iter().enumerate().skip(i).find(|(_, e)| e.name == "wAcq" && e.task == b.task).map(|(j, _)| j);
-        let before_bump_acq = trace[..i].iter().rev().take_while(|e| !(e.task == b.task && (e.name == "cRel" || e.name == "wDone" || e.name == "wDrop"))).any(|e| e.task == b.task && e.name == "wAcq");
-        if before_bump_acq { continue; } // repaired order: the lock was taken before the bump
-        let end = acq.unwrap_or(trace.len());
-        if trace[i..end].iter().any(|e| e.name == "rSample" && e.a == b.a) { return true; }
+    // (emission order = `hi`; on a multi-thread runtime an emission may lag its step, so positions relative to
+    // the bump's own emission are not used: a sample that returned the bumped value (or a later one) happened
+    // after the bump, and a sample emitted before the writer's `acq` emission happened before the writer owned
+    // the lock, because the sampling reader holds the shared lock from before its load until after its emission)
+    for b in trace.iter().filter(|e| e.name == "wBump") {
+        // the acquisition that belongs to this bump: the writer's first `acq` after it, unless an `acq` of the
+        // same session precedes the bump (repaired order: lock first)
+        let prev_acq = trace.iter().filter(|e| e.task == b.task && e.name == "wAcq" && e.hi < b.hi).map(|e| e.hi).max();
+        let prev_end = trace.iter().filter(|e| e.task == b.task && (e.name == "wCommit" || e.name == "wDrop") && e.hi < b.hi).map(|e| e.hi).max();
+        let locked_first = match (prev_acq, prev_end) { (Some(a), Some(e)) => a > e, (Some(_), None) => true, _ => false };
+        if locked_first { continue; }
+        let acq = trace.iter().filter(|e| e.task == b.task && e.name == "wAcq" && e.hi > b.hi).map(|e| e.hi).min().unwrap_or(u64::MAX);
+        if trace.iter().any(|e| e.name == "rSample" && e.a >= b.a && e.hi < acq) { return true; }
     }
     false
 }
@@ -607,7 +619,7 @@ fn emit_case(out: &mut Out, idx: u64, case: &PCase, ro: &RunOut, order: &str) {
         let mut s = format!("task {t}");
         for o in ops {
             match o {
-                TOp::Round(ks) => { s.push_str(&format!(" R {}", ks.len())); for k in ks { s.push_str(&format!(" {} {k}", if case.program.kind(*k) == Kind::Input { 1 } else { 0 })); } }
+                TOp::Round(ks) => { let mut d: Vec<u32> = vec![]; for k in ks { if !d.contains(k) { d.push(*k); } } s.push_str(&format!(" R {}", d.len())); for k in &d { s.push_str(&format!(" {} {k}", if case.program.kind(*k) == Kind::Input { 1 } else { 0 })); } }
                 TOp::Session(ws, c) => { s.push_str(&format!(" S {}", ws.len())); for (k, v) in ws { s.push_str(&format!(" {k} {v}")); } s.push_str(if *c { " c" } else { " d" }); }
             }
         }
